@@ -15,7 +15,7 @@
 From Coq Require Import String List NArith Bool Arith.
 From Nexus Require Import Conc.SkelTypes Conc.Machine Conc.MachineFacts Conc.Shutdown
   Conc.ShutdownWitness Conc.ShutdownProofs Conc.ShutdownLock Conc.ShutdownFlag Conc.ShutdownWg Conc.ShutdownCloser Conc.ShutdownTimers Conc.ShutdownServers Conc.ShutdownOwn Conc.Skeleton Conc.SkelObligationsC06 gen.GenSkeleton.
-From Nexus Require Conc.CallTimers.
+From Nexus Require Conc.CallTimers Conc.PeerClose.
 Import ListNotations.
 
 (** ** Tie to the source, re-established on every run *)
@@ -246,3 +246,31 @@ Theorem invocation_drops_cancel_timer :
   Skeleton.invocation_drops_cancel_timer gen_invocation_drops = true.
 Proof. exact invocation_drops_cancel_timer_holds. Qed.
 Print Assumptions invocation_drops_cancel_timer.
+
+(** ** Close terminates: network clients that stopped reading
+
+    Model [Conc/PeerClose.v] (timed): closing a network peer waits for its
+    sender goroutine, which may be inside a network write to a client that
+    takes the frame later, or never.  With the write deadline T that [Close]
+    sets before it waits, for EVERY number of network clients, EVERY subset of
+    them that stopped reading and every state of every sender, the shutdown
+    ends after at most T per peer. *)
+Theorem shutdown_terminates_with_stalled_clients :
+  forall (T : N) (ps : list PeerClose.sender),
+    exists t, PeerClose.shutdown_time true T ps = Some t /\ (t <= N.of_nat (length ps) * T)%N.
+Proof. exact PeerClose.shutdown_terminates_with_stalled_clients. Qed.
+Print Assumptions shutdown_terminates_with_stalled_clients.
+
+(** Without the deadline (the code before 313de37) one such client is enough:
+    the shutdown never ends. *)
+Theorem close_terminates_refuted_stalled_network_client :
+  forall (T : N) (ps : list PeerClose.sender),
+    In (PeerClose.Writing None) ps -> PeerClose.shutdown_time false T ps = None.
+Proof. exact PeerClose.shutdown_never_ends_refuted_without_deadline. Qed.
+Print Assumptions close_terminates_refuted_stalled_network_client.
+
+(** Per run: the translator's reading of today's transport package. *)
+Theorem peer_close_bounds_pending_write :
+  Skeleton.peer_close_bounds_pending_write gen_peer_close_bounds_write = true.
+Proof. exact peer_close_bounds_pending_write_holds. Qed.
+Print Assumptions peer_close_bounds_pending_write.
